@@ -129,6 +129,8 @@ pub enum ExecutableError {
     NonComputation { found: CheckedRootSort },
     #[error("Builtin execution requires a package-dependent root, but found type {found:?}")]
     NonBuiltinExecutable { found: zydeco_statics::syntax::TypeId },
+    #[error("cannot execute or lower a program with {count} unfilled term hole(s)")]
+    UnfilledHoles { count: usize },
 }
 
 /// A failure in a phase that prevents type checking from starting.
@@ -372,6 +374,20 @@ impl CompilerSession {
         let Fillable::Done(Type::PackPi(signature)) = statics.types_pre[&ty].clone() else {
             return Err(ExecutableError::NonBuiltinExecutable { found: ty });
         };
+        // A typed hole is an answer for the editor, not a term: nothing can run or be lowered through it.
+        let holes = statics
+            .values
+            .iter()
+            .filter(|(_, value)| matches!(value, zydeco_statics::syntax::Value::Hole(_)))
+            .count()
+            + statics
+                .compus
+                .iter()
+                .filter(|(_, compu)| matches!(compu, zydeco_statics::syntax::Computation::Hole(_)))
+                .count();
+        if holes > 0 {
+            return Err(ExecutableError::UnfilledHoles { count: holes });
+        }
         Ok(ExecutableProgram { spans, scoped, statics, root, signature: *signature })
     }
 
